@@ -91,6 +91,11 @@ def compose_col(s, c):
         if c.is_const() and c.const_value() < 0:
             raise Unsupported("negative column of a column range")
         return c + sp[0]
+    u = sem.unfn(c)
+    if u is not None and u[0] == "slice" and symname(u[1][1]) != "None" and not u[1][1].is_const():
+        # an end given as a column count (`: nt - 1`) counts columns of the range it is applied to, which starts at column sp[0] of the history
+        k = int((u[1][1] - NT).const_value())                  # end = nt + k (k <= 0) in the coordinates of the range
+        return mkrange(sp[0] + sp2[0], max(sp[1], -(sp[0] + k)))
     return mkrange(sp[0] + sp2[0], sp[1] + sp2[1])
 
 
